@@ -67,7 +67,6 @@ func (p *c38Pair) both(line string) {
 // recorded and that would make the two states drift apart (every later difference would only be
 // a consequence). The witnesses of those deviations are the directed cases.
 //   - AppendObject is not implemented by the S3 client backend        → appends are skipped
-//   - PutObject drops the tag set                                       → puts carry no tags
 //   - an Expires value that is not an RFC 1123 HTTP date is dropped or rewritten → such values are removed
 //   - CopyObject forwards neither the tagging directive nor a replacement tag set → copies keep the source tags
 //   - a copy of an object onto itself is judged by the HTTP layer's S3 rule       → self copies are skipped
@@ -94,9 +93,6 @@ func c38Avoid(line string) (string, bool) {
 				}
 			}
 			t[i] = "md=" + pairsS(m)
-		}
-		if t[1] == "put" && strings.HasPrefix(tok, "tags=") {
-			t[i] = "tags=~"
 		}
 		if t[1] == "cp" && strings.HasPrefix(tok, "tags=") {
 			t[i] = "tags=~" // CopyObject forwards neither the tagging directive nor the tag set
@@ -126,7 +122,7 @@ func c38Directed() []c38Dir {
 		mk("append", // AppendObject through the client backend
 			"op mkb b0", "op app b0 k0 " + h("first") + " off=~", "op get b0 k0 vid=~",
 		),
-		mk("put-tags", // PutObject with a tag set
+		mk("", // PutObject with a tag set (dropped by the client until /repo a758c2b; now a clean directed history)
 			"op mkb b0", "op put b0 k0 " + h("tagged") + " ct=~ md=~ tags=" + h("env") + ":" + h("prod") + " cls=~ inm=0 im=~", "op gtag b0 k0 vid=~",
 		),
 		mk("expires", // Expires that is not an HTTP date / not in RFC 1123 form
